@@ -60,8 +60,12 @@ advisory with an ID, equal IDs carry identical advisories). -/
 theorem C20_validate_spec (fs : List (Option Finding)) : validate fs [] = none ↔ Consistent fs :=
   validate_spec fs
 
-/-- FULL STRENGTH. Consistent advisories: `Run` succeeds and returns every finding of every detector, in
-order, untouched except for the tag naming ITS detector — whatever objects the detectors share. -/
+/-- Consistent advisories: `Run` succeeds and returns every finding of every detector, in order, untouched
+except for the tag naming ITS detector — whatever objects the detectors share (no pointer hypothesis any more;
+`_partial` is for `NoCancel`). Audit note: since the repaired code copies, the model's loop is a `flatMap` of
+`tagResults`, and `tag = tagCopy` by `rfl`; what this theorem adds over the definition is that validation
+lets exactly the consistent lists through and that nothing is dropped (`consistent_no_nil`); that the Go loop
+IS this `flatMap` (copies, no write to the detector's object) is the stream's `find=`/`mut=0` comparison. -/
 theorem C20_tagged_partial (ds : List Detector) (px : PkgMap) (hn : NoCancel ds)
     (hc : Consistent (specFindings ds px)) :
     (run ds px).findings.map some = specFindings ds px ∧ (run ds px).err = none := by
@@ -144,7 +148,7 @@ theorem C20_index_partial (i : ScanIn) (hn : NoCancel i.dets) :
     (getAll (Index.new (i.fsPkgs ++ i.stPkgs))).Perm (specAll (i.fsPkgs ++ i.stPkgs)) :=
   ⟨C20_once_partial _ _ hn, fun n t => new_getSpecific _ n t, fun t => new_getAllOfType _ t, new_getAll _⟩
 
-/-- FULL STRENGTH, scan level, consistent findings: the scan succeeds and reports (as a sorted
+/-- Scan level, consistent findings (of the detectors; extractor findings pass through unvalidated, see the header): the scan succeeds and reports (as a sorted
 permutation) the extractors' findings plus every detector finding tagged with its detector. -/
 theorem C20_tagged_scan_partial (i : ScanIn) (hn : NoCancel i.dets)
     (hc : Consistent (specFindings i.dets (Index.new (i.fsPkgs ++ i.stPkgs)))) :
@@ -243,6 +247,9 @@ def exDs : List Detector :=
    ⟨"d3", fun px => ((getSpecific px "n" "t").map fun p => some ⟨10 + p.id, some exB, p.id, [2], []⟩, false), false⟩]
 def exPkgs : List Pkg := [⟨0, some ("t", "n")⟩, ⟨1, none⟩, ⟨2, some ("t", "m")⟩, ⟨3, some ("t", "n")⟩]
 
+/-- the LAST detector may cancel the context: nothing is skipped -/
+example : NoCancel [⟨"a", fun _ => ([], false), false⟩, ⟨"b", fun _ => ([], false), true⟩] := by
+  intro d hd; simp at hd; rw [hd]
 example : NoCancel exDs := by intro d hd; simp [exDs] at hd; rcases hd with rfl | rfl | rfl <;> rfl
 example : consistentB (specFindings exDs (Index.new exPkgs)) = true := by decide
 example : ((run exDs (Index.new exPkgs)).findings.map fun f => (f.ptr, f.detectors)) =
